@@ -812,7 +812,11 @@ class AnimalSpecies:
                 # fraction of the requirement delivered, taken before the balance is reduced
                 fraction_fed = NE_provided / self.NE_balance.kcals
                 self.NE_balance.kcals -= NE_provided
-                self.population_fed = round(fraction_fed * self.current_population)
+                # whole animals, but never more than the (possibly fractional) herd
+                self.population_fed = min(
+                    round(fraction_fed * self.current_population),
+                    self.current_population,
+                )
 
         return grass_input, feed_input
 
